@@ -526,6 +526,16 @@ impl<'a> Cx<'a> {
   }
 
   fn if_expr(&mut self, i: &ExprIf) -> R<Ex> {
+    // `if let PAT = e { a } else { b }` is `match e { PAT => { a }, _ => { b } }`
+    if let Expr::Let(l) = &*i.cond {
+      let els = match &i.else_branch {
+        Some((_, e)) => e,
+        None => return Err("if-let without else".into()),
+      };
+      let text = format!("match {} {{ {} => {}, _ => {} }}", toks(&l.expr), toks(&l.pat), toks(&i.then_branch), toks(els));
+      let m: ExprMatch = syn::parse_str(&text).map_err(|e| format!("if-let: {}", e))?;
+      return self.match_expr(&m);
+    }
     let mut pre = vec![];
     let c = self.boolean(&i.cond, &mut pre)?;
     let (tp, ta, tk) = self.block_expr(&i.then_branch)?;
@@ -558,6 +568,11 @@ impl<'a> Cx<'a> {
         }
         Stmt::Local(l) => {
           let lines = self.local(l)?;
+          pre.extend(lines);
+        }
+        Stmt::Item(Item::Const(c)) => {
+          // a function-local constant is a `let`
+          let lines = self.local_const(c)?;
           pre.extend(lines);
         }
         _ => {
@@ -732,7 +747,7 @@ impl<'a> Cx<'a> {
               kind = k;
             }
             some_arm = Some(format!("  | some v_{} => {}", v, t));
-          } else if pat == "None" {
+          } else if pat == "None" || (pat == "_" && some_arm.is_some()) {
             let (t, k) = self.arm(&arm.body)?;
             if k.is_some() {
               kind = k;
